@@ -449,6 +449,7 @@ pub fn worker_main(args: &Args, w: usize, n: usize) -> ! {
             }
         }
         let dir = scratch.sub(&format!("img{ii}"));
+        hooks.set_short_reads(0, 0);
         let (built, pristine) = crate::build_image(&hooks, args.seed, &name, &logical, &dir)
             .unwrap_or_else(|e| simcore::harness_error(&e));
         let mism = dump::check_against_model(&pristine, &built.model, true);
